@@ -192,7 +192,13 @@ def corr(seed, tier):
         out = os.path.join(BUILD, "bin", f"h_c16{tag}-{rh}-{hh}")
         outs[tag] = out
         jobs.append((src, out, ["-O1", f"-I{VERIF}/harness", f"-DC16_SCALAR={scalar}"] + extra))
-    fails = vlib.build_cxx(jobs)
+    fails = {}
+    for _attempt in range(3):
+        # (binaries are cached per repo hash; a concurrent check run on another VERIF_REPO garbage-collects
+        #  them, so make sure they are all still there when the build returns)
+        fails = vlib.build_cxx(jobs)
+        if all(os.path.exists(j[1]) or j[1] in fails for j in jobs):
+            break
     for out, log in fails.items():
         problems.append({"kind": "harness-build-failed", "harness": os.path.basename(out), "log": log[-3000:]})
     # the extracted model
